@@ -32,7 +32,7 @@ ExtractArg(c, i) ==
     [] code = "s" -> IF a.null THEN [k |-> "nil", niltype |-> ""] ELSE [k |-> "str", s |-> a.s]
     [] code = "o" -> IF a.null THEN [k |-> "nil", niltype |-> ty] ELSE [k |-> "obj", new |-> FALSE, id |-> a.id, type |-> ty]
     [] code = "n" -> [k |-> "obj", new |-> TRUE, id |-> a.id, type |-> ty]
-    [] code = "a" -> [k |-> "array", vals |-> a.vals]
+    [] code = "a" -> [k |-> "array", vals |-> a.vals]        \* the whole 32-bit words; trailing bytes (a.extra) are not elements
     [] code = "h" -> [k |-> "fd", v |-> a.v]
 
 Extract(c) ==
@@ -48,7 +48,7 @@ PrintedArg(c, i) ==
     [] code = "s" -> IF a.null THEN [k |-> "nil", niltype |-> ""] ELSE [k |-> "str", s |-> a.s]
     [] code = "o" -> IF a.null THEN [k |-> "nil", niltype |-> ""] ELSE [k |-> "obj", new |-> FALSE, id |-> a.id, type |-> a.otype]
     [] code = "n" -> [k |-> "obj", new |-> TRUE, id |-> a.id, type |-> ty]
-    [] code = "a" -> [k |-> "array", n |-> Len(a.vals) * 4]
+    [] code = "a" -> [k |-> "array", n |-> Len(a.vals) * 4 + a.extra]   \* the size in bytes; a.extra \in 0..3 are bytes beyond the last whole word
     [] code = "h" -> [k |-> "fd", v |-> a.v]
 
 Printed(c) == [name |-> c.name, sent |-> Sent(c), tid |-> c.sender, ttype |-> c.ttype,
